@@ -23,10 +23,10 @@ func vH_C04_time_testpic2s_V300_ato0()  { vC04(vAsset_testpic_2s(), "V300", 1, 0
 func vH_C04_nr_wave2997_ato0() {
 	vC04(vAsset_WAVE_vectors_cfhd_sets_14_985_29_97_59_94_t1_2022_10_17(), "1", 0, 0)
 }
-func vH_C04_nr_alt_V300_ato0()          { vC04(vAsset_testpic_alt_seg_dur_stl(), "V300", 0, 0) }
-func vH_C04_time_alt_V300_ato0()        { vC04(vAsset_testpic_alt_seg_dur_stl(), "V300", 1, 0) }
-func vH_C04_nr_syn_irregular3_ato0()    { vC04(vAsset_syn_irregular3(), "V1", 0, 0) }
-func vH_C04_nr_syn_subsecond_atoFrac()  { vC04(vAsset_syn_subsecond(), "V1", 0, 2) }
+func vH_C04_nr_alt_V300_ato0()         { vC04(vAsset_testpic_alt_seg_dur_stl(), "V300", 0, 0) }
+func vH_C04_time_alt_V300_ato0()       { vC04(vAsset_testpic_alt_seg_dur_stl(), "V300", 1, 0) }
+func vH_C04_nr_syn_irregular3_ato0()   { vC04(vAsset_syn_irregular3(), "V1", 0, 0) }
+func vH_C04_nr_syn_subsecond_atoFrac() { vC04(vAsset_syn_subsecond(), "V1", 0, 2) }
 
 // mode: 0 = by number, 1 = by time.  atoMode: 0 = ato 0, 1 = +Inf, 2 = fractional (1 ms .. segDur-1 ms).
 func vC04(a *asset, repID string, mode, atoMode int) {
